@@ -106,14 +106,14 @@ type JClient struct {
 	CibaAlg string
 }
 
-func optAlg(s string) string {
+func jOptAlg(s string) string {
 	if s == "" {
 		return "None"
 	}
 	return "(Some " + s + ")"
 }
 func (c JClient) coq() string {
-	return fmt.Sprintf("(%d, mkJClient %s %s %s)", c.ID, cList(c.Keys, JWK.coq), optAlg(c.JarAlg), optAlg(c.CibaAlg))
+	return fmt.Sprintf("(%d, mkJClient %s %s %s)", c.ID, cList(c.Keys, JWK.coq), jOptAlg(c.JarAlg), jOptAlg(c.CibaAlg))
 }
 
 type RO struct {
@@ -135,7 +135,7 @@ type RO struct {
 	Params    Params
 }
 
-func optZ(p *int) string {
+func jOptZ(p *int) string {
 	if p == nil {
 		return "None"
 	}
@@ -148,7 +148,7 @@ func (o RO) coq() string {
 		sig = "(SigBy " + cN(o.SigKey) + ")"
 	}
 	return fmt.Sprintf("(mkRO %s %s %s %s %d %s %s %s %s %s %d %s %s %s)", o.Enc, sig, o.Alg, cN(o.Kid), o.Iss, cB(o.AudOK),
-		optZ(o.Exp), optZ(o.Nbf), optZ(o.Iat), cB(o.Jti), o.ClientID, cB(o.NestedReq), cB(o.NestedURI), o.Params.coq())
+		jOptZ(o.Exp), jOptZ(o.Nbf), jOptZ(o.Iat), cB(o.Jti), o.ClientID, cB(o.NestedReq), cB(o.NestedURI), o.Params.coq())
 }
 func optRO(o *RO) string {
 	if o == nil {
@@ -363,7 +363,7 @@ func (jw *JWorld) claims(o *RO) map[string]any {
 	return m
 }
 
-func b64(b []byte) string { return base64.RawURLEncoding.EncodeToString(b) }
+func jB64(b []byte) string { return base64.RawURLEncoding.EncodeToString(b) }
 
 func (jw *JWorld) render(o *RO) string {
 	claims := jw.claims(o)
@@ -376,7 +376,7 @@ func (jw *JWorld) render(o *RO) string {
 	switch o.Sig {
 	case "SigEmpty":
 		h, _ := json.Marshal(hdr)
-		compact = b64(h) + "." + b64(payload) + "."
+		compact = jB64(h) + "." + jB64(payload) + "."
 	case "SigBy", "SigInvalid":
 		key := jkeyTab[o.SigKey]
 		if key == nil {
@@ -385,7 +385,7 @@ func (jw *JWorld) render(o *RO) string {
 		if o.Alg == "ANone" {
 			// a "none" header over bytes in the signature segment
 			h, _ := json.Marshal(hdr)
-			compact = b64(h) + "." + b64(payload) + "." + b64([]byte("not-a-signature"))
+			compact = jB64(h) + "." + jB64(payload) + "." + jB64([]byte("not-a-signature"))
 			break
 		}
 		so := (&jose.SignerOptions{}).WithType("JWT")
@@ -414,7 +414,7 @@ func (jw *JWorld) render(o *RO) string {
 		s, _ := jws.CompactSerialize()
 		if o.Sig == "SigInvalid" {
 			parts := strings.Split(s, ".")
-			s = parts[0] + "." + b64(payload) + "." + parts[2]
+			s = parts[0] + "." + jB64(payload) + "." + parts[2]
 		}
 		compact = s
 	default:
